@@ -875,6 +875,35 @@ def check_joint(run, vol, n, seed):
                        what="vertex and direction of the thrown neutrinos are not independent: " + "; ".join(bad[:3]))
 
 
+def check_caller_buffers(run, vol, ratios, energy):
+    """CALLER-OWNED arrays handed to the constructor and MUTATED IN PLACE afterwards (one buffer reused to build one
+    generator per flavour): each generator must keep the ratio / energy it was constructed with - compared, on the same
+    tape, with a generator built from a tuple / float of the original values"""
+    buf = np.zeros(3)
+    ebuf = np.array(float(energy))
+    gens = []
+    for r in ratios:
+        buf[:] = r                                  # already normalised float64 values in a reused buffer
+        ebuf[...] = energy
+        gens.append((tuple(float(x) for x in r), make_gen(vol, ebuf, flavor_ratio=buf)))
+        ebuf[...] = energy * 7.0                    # the caller goes on using its buffers
+    buf[:] = (0.5, 0.5, 0.0)
+    for k, (r, gen) in enumerate(gens):
+        ref = make_gen(vol, float(energy), flavor_ratio=r)
+        us = [run.rng.random() for _ in range(2)]
+        with Tape(run.rng, inject=list(us)):
+            got = FL[gen.get_particle_type().value]
+        with Tape(run.rng, inject=list(us)):
+            want = FL[ref.get_particle_type().value]
+        e_got, e_want = float(gen.get_energy()), float(ref.get_energy())
+        if got != want or e_got != e_want or not np.allclose(gen.ratio, ref.ratio, rtol=1e-15, atol=0):
+            run.fail_input("caller-buffers", {"volume": list(vol), "ratios": [list(map(float, x)) for x in ratios], "energy": float(energy)},
+                           observed={"generator": k, "ratio_now": [float(x) for x in gen.ratio], "type": got, "energy": e_got},
+                           expected={"ratio": [float(x) for x in ref.ratio], "type": want, "energy": e_want},
+                           what="a generator built from a caller-owned array changed when the caller modified that array afterwards")
+            return
+
+
 def ks_stat(xs):
     xs = np.sort(np.asarray(xs))
     n = len(xs)
@@ -925,6 +954,13 @@ def search(run, deep):
         cfg = draw_event_cfg(run)
         run.case(("oracle-tape-disjoint", str(cfg)))
         check_tape_disjoint(run, cfg)
+    # caller-owned, already normalised ratio / energy buffers mutated after construction
+    for i in range(6 * mult):
+        vol = draw_volume(rng)
+        pool = [(0.0, 0.0, 1.0), (0.0, 1.0, 0.0), (1.0, 0.0, 0.0), (0.25, 0.25, 0.5), (0.5, 0.25, 0.25), (0.125, 0.75, 0.125)]
+        ratios = [rng.choice(pool) for _ in range(rng.randint(2, 4))]
+        run.case(("oracle-caller-buffers", vol, tuple(ratios)))
+        check_caller_buffers(run, vol, ratios, 10 ** rng.uniform(3, 12))
     # query - mutate - query: attributes of one generator reassigned between draws
     for i in range(15 * mult):
         vol = draw_volume(rng)
@@ -1036,6 +1072,8 @@ def replay(run, data):
         check_exit_inputs(run, tuple(i["volume"]), i["vertex"], i["direction"])
     elif k == "list":
         check_list(run, i["n"], i["loop"], i["calls"])
+    elif k == "caller-buffers":
+        check_caller_buffers(run, tuple(i["volume"]), [tuple(x) for x in i["ratios"]], i["energy"])
     elif k == "tape-disjoint":
         cfg = dict(i["config"])
         cfg["vol"] = tuple(cfg["vol"]); cfg["ratio"] = tuple(cfg["ratio"])
